@@ -1,6 +1,6 @@
 #!/bin/bash
 set -e
-cd /verif/sim
+cd "$(dirname "$(readlink -f "$0")")"
 mkdir -p bin
 cargo build -q -p simalloc --target-dir target/simalloc 2>&1
 cp target/simalloc/debug/simalloc bin/simalloc
